@@ -6,6 +6,7 @@ import (
 	"fmt"
 	"os"
 	"path/filepath"
+	"regexp"
 	"sort"
 	"strconv"
 	"strings"
@@ -13,6 +14,8 @@ import (
 )
 
 var VerifDir = "/verif"
+
+var clausePropRe = regexp.MustCompile(`#[a-z]+:(C\d\d)\.`)
 
 type PropConfig struct {
 	Pkgs        []string `json:"pkgs"`
@@ -235,6 +238,10 @@ func CmdCheck(prop, tier string) int {
 		rs := Discharge(fr, DischargeOpts{QuickTimeout: quickT, FullTimeout: fullT, Workers: 16, CrossCheck: cross, GetValues: paramLeafTerms(fr)})
 		for i := range rs {
 			r := &rs[i]
+			// a clause labelled [Cxx.name] belongs to property Cxx only (a function may serve several properties)
+			if m := clausePropRe.FindStringSubmatch(r.Name); m != nil && m[1] != prop {
+				continue
+			}
 			nObl++
 			solverS += r.Dur.Seconds()
 			rec := oblRecord{Name: r.Name, Verdict: r.Verdict.String(), Solver: r.Solver, Sec: r.Dur.Seconds(), Insts: r.Insts}
